@@ -40,6 +40,9 @@ def generate(rng, tier):
     n = rng.choice([1, 2, 3, 4, 6])
     svcs = gen_services(rng, n, types=types[:rng.choice([1, 2, 2])], hosts=["hosta.local.", "HostB.local."],
                         custom_ttl=True, case_mix=True)
+    for s in svcs:
+        if rng.random() < 0.2:
+            s.pop("server")  # ServiceInfo without server=: the library fills in the instance name
     if rng.random() < 0.3:
         base = svcs[0]
         sub = dict(base)
